@@ -51,6 +51,21 @@ def _range_count(ex, it, env):
 
 def _stmt(ex, st, a, weight):
     env = a.env
+    if isinstance(st, ast.Assign) and isinstance(st.value, ast.ListComp) and len(st.value.generators) == 1:
+        # `_ = [step() for _ in range(n)]`: the comprehension kept in a throw-away name counts like the bare one
+        v = st.value
+        w1 = _expr_weight(ex, v.elt, env, weight)
+        if not w1.is_zero():
+            n = _range_count(ex, v.generators[0].iter, env)
+            if n is None:
+                raise Unsupported(f"comprehension at line {st.lineno} iterates a non-range")
+            return [Alt(env, a.total + n * w1, a.guards)]
+    if isinstance(st, ast.With):
+        # a context manager around the statements (catch_warnings, a timer): its body runs once, in order
+        out = []
+        for b in count_calls(ex, st.body, env, weight, a.guards):
+            out.append(Alt(b.env, a.total + b.total, b.guards, b.done))
+        return out
     if isinstance(st, (ast.Assign, ast.AugAssign, ast.AnnAssign)):
         w = _expr_weight(ex, st, env, weight)
         try:
